@@ -19,8 +19,9 @@ CHECK = dict(
                  fuzz="^FuzzVerifC01Accept$", fuzztime="150s", timeout_thorough=600, env={"GOMAXPROCS": "4"}),
         ]),
         dict(name="sockets", dir=D, src="C01/sockets", runs=[
-            dict(name="sockets", run="^TestVerifC01Sockets$", quick=400, thorough=15000, shards_quick=2, shards_thorough=6,
+            dict(name="sockets", run="^TestVerifC01Sockets$", quick=400, thorough=12000, shards_quick=2, shards_thorough=6,
                  timeout_quick=300, timeout_thorough=1500),
+            dict(name="stream-idle", run="^TestVerifC01StreamIdle$", quick=12, thorough=150, shards_thorough=3),
             dict(name="btd-read-buffer", run="^TestVerifC01BTDReadBuffer$", quick=0, thorough=0),
         ]),
     ],
